@@ -25,6 +25,10 @@ def parseOp (tok : String) : Option Op :=
   | ["touch", i] => (nat? i).map .touch
   | ["adv", n] => (nat? n).map .advance
   | ["get", p] => (hexToChars p).map .get
+  -- media.GetOrCreate(path) for a path no route matches: its lookup is `Get(path)` (the first call of its body:
+  -- fact getOrCreateCalls, an obligation of c05_source_facts) and nothing else happens, so it is the
+  -- specification's lookup: "a closed or unregistered stream is never returned by lookup"
+  | ["goc", p] => (hexToChars p).map .get
   | ["count"] => some .count
   | ["infos", t, n] => match hexToChars t, nat? n with
     | some t, some n => some (.infos t n)
